@@ -70,11 +70,17 @@ inductive Hop where
   | fail (what : String)
   /-- an exported SR field changed when `DeriveConstants` was called again on the finished SR -/
   | changed (what : String)
+  /-- the reused transformer answered (x, y) where a fresh one answers (u, v) on the same input -/
+  | histdep (x y u v : Float)
 
 def parseHop (t : List String) : Option Hop :=
   match t with
   | ["ok", a, b] => do let x ← hexF a; let y ← hexF b; pure (.ok x y)
   | ["same", a, b] => do let x ← hexF a; let y ← hexF b; pure (.same x y)
+  | ["histdep", a, b, c, d] => do
+    let x ← hexF a; let y ← hexF b; let u ← hexF c; let v ← hexF d
+    pure (.histdep x y u v)
+  | "histdep-err" :: w :: _ => some (.changed ("reused-transformer-fails-fresh-one-answers:" ++ w))
   | "changed" :: w :: _ => some (.changed w)
   | "err" :: w :: _ => some (.fail ("err:" ++ w))
   | "panic" :: w :: _ => some (.fail ("panic:" ++ w))
@@ -135,6 +141,11 @@ def judgeHop (src dst : String) (x y : Float) (h : Hop) : Option String :=
   let js := Js.proj4 (α := Float) src dst x y
   let tag := s!"{projOf src}>{projOf dst}"
   match h with
+  | .histdep hx hy u v =>
+    -- a transformation is a function of the position: the n-th call of a Transformer must answer
+    -- what a freshly built one answers (bitwise)
+    let sc := scaleOf dst v
+    some s!"SPEC {tag} history-dependent reused=({fmt hx},{fmt hy}) fresh=({fmt u},{fmt v}) differ-by-{fmt (dist sc (hx, hy) (u, v))}m"
   | .changed what =>
     -- `DeriveConstants` on a finished SR must leave the exported fields as `Parse` left them
     -- (proj4js' deriveConstants is guarded the same way: `if (!json.datum)`)
@@ -245,6 +256,7 @@ def judgeTr (fields : List String) (rhs : String) (flavour : String := "") : Str
             | .same nx ny => go (d :: rest) hs nx ny (i + 1)
             | .fail _ => s!"OK {cls}-rejected"
             | .changed _ => s!"OK {cls}"
+            | .histdep _ _ _ _ => s!"OK {cls}"
         | _ :: _ :: _, none :: _, _, _, _ => s!"DIFF {cls} unreadable-result"
         | _ :: _ :: _, [], _, _, i => s!"DIFF {cls} result-stops-before-hop{i}"
         | _, _, _, _, _ => s!"OK {cls}"
@@ -316,12 +328,31 @@ def jsLine (line : String) : String :=
     | _ => "err bad-coordinates"
   | _ => "err bad-line"
 
+/-- `trs`: the positions of the sequence are judged one by one like `tr`; the first failing position
+gives the verdict (`pos<k>:` names it) -/
+def judgeSeq (fields : List String) (rhs : String) : String :=
+  let defs := (fields.drop 1).dropLast
+  let xy := tokens (fields.getLast?.getD "")
+  let outs := rhs.splitOn " ;; "
+  let cls := "trs-" ++ "-".intercalate (defs.map projOf) ++ ":" ++ String.join (defs.map datumTag)
+  let rec go : List String → List String → Nat → String
+    | a :: b :: rest, o :: os, k =>
+      let v := judgeTr (("tr" :: defs) ++ [a ++ " " ++ b]) o "s"
+      if v.startsWith "OK" then go rest os (k + 1)
+      else
+        let parts := v.splitOn " "
+        s!"{parts.headD "DIFF"} {cls} pos{k}:{" ".intercalate (parts.drop 2)}"
+    | _ :: _ :: _, [], k => s!"DIFF {cls} result-stops-before-pos{k}"
+    | _, _, _ => s!"OK {cls}"
+  if xy.length % 2 != 0 || xy.isEmpty then "DIFF bad-line coordinates" else go xy outs 1
+
 def judgeLine (line : String) : String :=
   match line.splitOn " => " with
   | [lhs, rhs] =>
     let fields := splitBar lhs
     match fields with
     | "tr" :: _ :: _ :: _ :: _ => judgeTr fields rhs
+    | "trs" :: _ :: _ :: _ :: _ => judgeSeq fields rhs
     | k :: _ :: _ :: _ :: _ =>
       -- histories: extra DeriveConstants calls (`trd<k>`) / repeated parses (`trp<k>`) must not change
       -- anything, so the expected answers are those of the plain chain
